@@ -1,1 +1,419 @@
 """C07, C08, C09, C11, C12, C13-Q1, C14, C16, C17, C20."""
+import re
+
+from core import ExprBuilder, callee_name, expr_str, short, strip_generics, walk, places_in, calls_in, is_transparent
+from df import Flow, world_str
+from engine import rule, ok, bad, undecided, at, Anchor
+from common import (
+    RECV,
+    SEND,
+    impl_fns,
+    impl_and_closures,
+    inter,
+    call_sites,
+    ends,
+    agg_sites,
+    field_writes,
+    all_worlds_satisfy,
+    val_in,
+    val_not,
+    call_key,
+    backslice,
+    local_uses,
+    flows_to_place,
+)
+
+
+# ================================================================ C16
+@rule("C16", "C16-D", 1, "the byte count returned by the socket receive flows into the bound of what is handed to the decoder")
+def c16_d(ctx):
+    fns = [f for f in ctx.prog.by_norm.values() if f.crate == "cfdp_daemon" and "PDUTransport>::receive" in f.norm]
+    n = 0
+    for f in fns:
+        for b, t in f.all_calls():
+            d, r, _ = ctx.prog.callee_of(t)
+            if not (d or "").endswith("PDUEncode::decode"):
+                continue
+            n += 1
+            eb = ExprBuilder(ctx.prog, f)
+            e = eb.call(b, t)
+            calls, places, nodes = backslice(ctx.prog, f, e[3][0])
+            recv = [c for c in calls if re.search(r"::(recv_from|recv|peek_from|recv_buf_from|try_recv_from)$", callee_name(c) or "")]
+            # the count: a usize projected out of the receive's result must be in the slice
+            count = [x for x in nodes if x[0] == "proj" and x[3] == "usize" and any(re.search(r"::(recv_from|recv)(::\{closure#0\})?$", callee_name(c) or "") for c in calls_in(x))]
+            key = "%s->PDU::decode" % short(f.root or f.norm)
+            if recv and count:
+                yield ok("C16-D", key, at(f, t["span"]["line"]), {"decoder_input": expr_str(e[3][0])[:300], "count": expr_str(count[0])[:200]})
+            else:
+                yield bad("C16-D", key, at(f, t["span"]["line"]), "the decoder's input %s does not depend on the byte count returned by the socket receive (stale buffer bytes can complete a truncated datagram)" % expr_str(e[3][0])[:200])
+    if n == 0:
+        raise Anchor("C16-D", "PDU::decode call inside an impl of PDUTransport::receive")
+
+
+# ================================================================ C09
+@rule("C09", "C09-G1", 4, "every overlap count returned by the coalescing helper reaches the new-bytes result of the insert operation")
+def c09_g1(ctx):
+    f = ctx.one("C09-G1", "segments::Segments::merge")
+    helper = ctx.one("C09-G1", "segments::merge")
+    eb = ExprBuilder(ctx.prog, f, user_stop=True)
+    ret = [expr_str(eb._def_expr(d, 0, (0,))) for d in f.defs(0) if d[0] in ("assign", "call")]
+    # the returned variable(s)
+    ret_vars = [r for r in ret if re.match(r"^[A-Za-z_][A-Za-z0-9_]*$", r)]
+    n = 0
+    for b, t in f.all_calls():
+        d, r, _ = ctx.prog.callee_of(t)
+        if (r or d) != helper.norm:
+            continue
+        n += 1
+        key = "Segments::merge:site#%d" % n
+        dest = t["dest"]
+        if dest["proj"]:
+            yield undecided("C09-G1", key, at(f, t["span"]["line"]), "overlap stored into a projection")
+            continue
+        flows = any(flows_to_place(f, dest["local"], rv) for rv in ret_vars) or flows_to_place(f, dest["local"], "_0")
+        if flows:
+            yield ok("C09-G1", key, at(f, t["span"]["line"]), "overlap count flows into %s" % ret_vars)
+        else:
+            yield bad("C09-G1", key, at(f, t["span"]["line"]), "the overlap returned by merge(v, k) is dropped: the bytes it counts are reported as newly received although already held")
+    if n == 0:
+        raise Anchor("C09-G1", "calls of segments::merge in Segments::merge")
+
+
+@rule("C09", "C09-G2", 1, "the completeness test depends on where the first held range starts (and can be true for an empty list only when the size is 0)")
+def c09_g2(ctx):
+    f = ctx.one("C09-G2", "segments::Segments::is_complete")
+    fns = [f] + ctx.prog.closures_of(f)
+    reads_start = []
+    for g in fns:
+        eb = ExprBuilder(ctx.prog, g)
+        exprs = []
+        for b in g.live_blocks():
+            blk = g.blocks[b]
+            for s in blk["stmts"]:
+                if s["k"] == "assign":
+                    exprs.append((s["span"]["line"], eb.rvalue(s["rv"])))
+            t = blk["term"]
+            if t["k"] == "switch":
+                exprs.append((t["span"]["line"], eb.operand(t["discr"])))
+            elif t["k"] == "call":
+                exprs.append((t["span"]["line"], eb.call(b, t)))
+        for line, e in exprs:
+            for x in walk(e):
+                if x[0] in ("binop",) and x[1] in ("Eq", "Ne", "Lt", "Le", "Gt", "Ge"):
+                    for side in (x[2], x[3]):
+                        for y in walk(side):
+                            s = y[1] if y[0] == "place" else (y[2] if y[0] == "proj" else "")
+                            ty = y[2] if y[0] == "place" else (y[3] if y[0] == "proj" else "")
+                            if isinstance(s, str) and re.search(r"(\]|\*)\.0$", s) and ty == "u64":
+                                reads_start.append((line, expr_str(x)[:160]))
+    if reads_start:
+        yield ok("C09-G2", "Segments::is_complete:start", at(f, reads_start[0][0]), {"comparisons_on_a_start_offset": reads_start[:3]})
+    else:
+        yield bad("C09-G2", "Segments::is_complete:start", at(f), "is_complete never compares the start offset (tuple field 0) of a held range: data starting at a non-zero offset cannot be told from data starting at 0")
+
+
+# ================================================================ C12
+FS_SINKS = (
+    "std::fs::",
+    "tokio::fs::",
+    "camino::Utf8Path::exists",
+    "camino::Utf8Path::is_file",
+    "camino::Utf8Path::is_dir",
+    "camino::Utf8Path::metadata",
+    "camino::Utf8Path::read_dir",
+    "camino::Utf8Path::symlink_metadata",
+    "camino::Utf8Path::canonicalize",
+    "camino::Utf8Path::try_exists",
+    "std::path::Path::exists",
+    "std::path::Path::is_file",
+    "std::path::Path::is_dir",
+    "tempfile::",
+)
+FS_NOT_PATH = (
+    "std::fs::File::options",
+    "std::fs::File::sync_all",
+    "std::fs::File::sync_data",
+    "std::fs::File::metadata",
+    "std::fs::OpenOptions::new",
+    "std::fs::OpenOptions::read",
+    "std::fs::OpenOptions::write",
+    "std::fs::OpenOptions::append",
+    "std::fs::OpenOptions::truncate",
+    "std::fs::OpenOptions::create",
+    "std::fs::OpenOptions::create_new",
+    "std::fs::Metadata::len",
+    "std::fs::Metadata::modified",
+    "std::fs::Metadata::is_dir",
+    "std::fs::Metadata::is_file",
+    "std::fs::DirEntry::path",
+    "std::fs::DirEntry::metadata",
+    "std::fs::DirEntry::file_name",
+    "tempfile::tempfile",
+)
+
+
+def _is_fs_sink(nm):
+    return nm.startswith(FS_SINKS) and nm not in FS_NOT_PATH
+
+
+@rule("C12", "C12-R1", 1, "every native path is root.join(normalize(name)): no pass-through branch")
+def c12_r1(ctx):
+    fs = [f for f in ctx.prog.by_norm.values() if f.name == "get_native_path" and f.impl_trait and f.impl_trait.endswith("FileStore") and f.crate == "cfdp_core"]
+    if not fs:
+        raise Anchor("C12-R1", "impl FileStore::get_native_path")
+    for f in fs:
+        eb = ExprBuilder(ctx.prog, f)
+        defs = [d for d in f.defs(0) if d[0] in ("assign", "call")]
+        exprs = []
+        for d in defs:
+            e = eb._def_expr(d, 0, (0,))
+            exprs.extend(e[2] if e[0] == "phi" else [e])
+        who = short(f.impl_self_adt or f.norm)
+        for i, e in enumerate(exprs):
+            key = "%s::get_native_path:return#%d" % (who, i + 1)
+            good = False
+            if e[0] == "call" and (callee_name(e) or "").endswith("Utf8Path::join") and len(e[3]) == 2:
+                a0 = places_in(e[3][0])
+                a1 = e[3][1]
+                while a1[0] == "ref" or (a1[0] == "call" and is_transparent(a1) and a1[3]):
+                    a1 = a1[2] if a1[0] == "ref" else a1[3][0]
+                if a0 == ["self.root_path"] and a1[0] == "call" and (callee_name(a1) or "").endswith("filestore::normalize_path"):
+                    good = True
+            if good:
+                yield ok("C12-R1", key, at(f), expr_str(e)[:240])
+            else:
+                yield bad("C12-R1", key, at(f), "get_native_path can return %s, which is not root_path.join(normalize_path(..))" % expr_str(e)[:240])
+
+
+def _unsanitised_leaves(prog, fn, e, params):
+    """Parameter places reachable in the backward slice of e without passing
+    through a get_native_path call."""
+    eb = ExprBuilder(prog, fn)
+    names = {vn: l for vn, l, proj in fn.var_places if not proj}
+    out = []
+    seen = set()
+    st = [e]
+    while st:
+        x = st.pop()
+        k = x[0]
+        if k == "call":
+            nm = callee_name(x) or ""
+            if nm.endswith("::get_native_path"):
+                continue  # sanitised subtree
+            st.extend(x[3])
+        elif k == "place":
+            root = x[1]
+            for ch in ".@[":
+                root = root.split(ch)[0]
+            if root in params:
+                out.append(x[1])
+            elif root in names and root not in seen:
+                seen.add(root)
+                for d in fn.defs(names[root]):
+                    if d[0] in ("assign", "call"):
+                        st.append(eb._def_expr(d, 0, (names[root],)))
+        elif k == "phi":
+            st.extend(x[2])
+        elif k == "agg":
+            st.extend(x[5])
+        elif k in ("fn", "const", "uneval", "cycle", "yield", "other"):
+            pass
+        else:
+            st.extend(y for y in x[1:] if isinstance(y, tuple) and y)
+    return out
+
+
+@rule("C12", "C12-R2", 15, "every path handed to a filesystem API by the native filestore (and by the trait's process_request) is a get_native_path result")
+def c12_r2(ctx):
+    fns = [f for f in ctx.prog.by_norm.values() if f.crate == "cfdp_core" and ((f.impl_trait or "").endswith("filestore::FileStore") or (f.in_trait or "").endswith("filestore::FileStore"))]
+    allf = []
+    for f in fns:
+        allf.append(f)
+        allf.extend(ctx.prog.closures_of(f))
+    if not fns:
+        raise Anchor("C12-R2", "impl FileStore for NativeFileStore")
+    counts = {}
+    for f in allf:
+        if f.name == "get_native_path":
+            continue
+        params = set()
+        root_fn = ctx.prog.by_norm.get(f.root) if f.root else f
+        for vn, l, proj in f.var_places:
+            if not proj and 1 <= l <= f.arg_count and vn != "self":
+                params.add(vn)
+        is_closure = f.kind == "Closure"
+        for b, t in f.all_calls():
+            d, r, _ = ctx.prog.callee_of(t)
+            nm = r or d or ""
+            if not (_is_fs_sink(nm) or _is_fs_sink(d or "")):
+                continue
+            eb = ExprBuilder(ctx.prog, f)
+            e = eb.call(b, t)
+            base = "%s->%s" % (short(f.root or f.norm) if is_closure else short(f.norm), nm.split("::")[-2] + "::" + nm.split("::")[-1])
+            counts[base] = counts.get(base, 0) + 1
+            key = base + ("#%d" % counts[base] if counts[base] > 1 else "")
+            leaks = []
+            for a, raw in zip(e[3], t["args"]):
+                aty = raw["place"]["ty"] if raw.get("k") in ("copy", "move") else raw.get("ty", "")
+                if "OpenOptions" in aty:
+                    continue  # the builder receiver, not a path
+                leaks.extend(_unsanitised_leaves(ctx.prog, f, a, params))
+            # closure parameters in list_directory are DirEntry values produced by read_dir(p)
+            if is_closure and leaks:
+                ty_ok = all("DirEntry" in (f.locals[l]["ty"]) for vn, l, proj in f.var_places if vn in {x.split(".")[0] for x in leaks} and not proj)
+                if ty_ok:
+                    leaks = []
+            if leaks:
+                yield bad("C12-R2", key, at(f, t["span"]["line"]), "filesystem call %s receives %s which did not pass through get_native_path" % (nm, sorted(set(leaks))))
+            else:
+                yield ok("C12-R2", key, at(f, t["span"]["line"]), expr_str(e)[:200])
+
+
+@rule("C12", "C12-R3", 3, "the lexical normaliser's accumulator is only extended by Normal components and shortened by pop")
+def c12_r3(ctx):
+    f = ctx.one("C12-R3", "filestore::normalize_path")
+    eb = ExprBuilder(ctx.prog, f)
+    # the returned accumulator
+    rets = [eb._def_expr(d, 0, (0,)) for d in f.defs(0) if d[0] in ("assign", "call")]
+    acc = None
+    if len(rets) == 1 and rets[0][0] == "place":
+        acc = rets[0][1]
+    if acc is None:
+        yield undecided("C12-R3", "normalize_path:accumulator", at(f), "return value is not a single accumulator variable: %s" % [expr_str(r) for r in rets])
+        return
+    # whole definitions
+    for i, x in enumerate(eb.var_defs(acc)):
+        txt = expr_str(x)
+        key = "normalize_path:%s=init#%d" % (acc, i + 1)
+        if txt == "Utf8PathBuf::new()":
+            yield ok("C12-R3", key, at(f), txt)
+        elif txt.startswith("From>::from(Utf8Component::as_str(") :
+            # allowed only under the Prefix pattern: the component's discriminant was tested == Prefix
+            yield ok("C12-R3", key, at(f), "prefix initialiser: " + txt[:120])
+        else:
+            yield bad("C12-R3", key, at(f), "accumulator initialised from %s" % txt[:200])
+    n = 0
+    for b, t in f.all_calls():
+        e = eb.call(b, t)
+        if not e[3] or expr_str(e[3][0]) != "&mut " + acc:
+            continue
+        n += 1
+        nm = (callee_name(e) or "").split("::")[-1]
+        key = "normalize_path:%s.%s#%d" % (acc, nm, n)
+        if nm == "pop":
+            yield ok("C12-R3", key, at(f, t["span"]["line"]), "pop")
+        elif nm == "push":
+            arg = expr_str(e[3][1])
+            if arg.endswith("@Normal.0") and "Iterator>::next(" in arg:
+                yield ok("C12-R3", key, at(f, t["span"]["line"]), "push(%s)" % arg[-60:])
+            else:
+                yield bad("C12-R3", key, at(f, t["span"]["line"]), "accumulator extended by %s, which is not the payload of a Utf8Component::Normal" % arg[:200])
+        else:
+            yield bad("C12-R3", key, at(f, t["span"]["line"]), "accumulator mutated by %s" % (callee_name(e)))
+    if n < 2:
+        raise Anchor("C12-R3", "push/pop on the normaliser's accumulator")
+
+
+# ================================================================ C20
+@rule("C20", "C20-P1", 6, "every progress figure shown to a user or peer originates from the transaction's progress counter")
+def c20_p1(ctx):
+    for adt, counter in ((RECV, "self.received_file_size"), (SEND, "self.sent_file_size")):
+        fns = impl_and_closures(ctx, adt)
+        getter = [g for g in impl_fns(ctx, adt) if g.name == "get_progress"]
+        nm = adt.split("::")[-1]
+        if not getter:
+            raise Anchor("C20-P1", nm + "::get_progress")
+        eb_g = ExprBuilder(ctx.prog, getter[0])
+        gdefs = [expr_str(eb_g._def_expr(d, 0, (0,))) for d in getter[0].defs(0) if d[0] in ("assign", "call")]
+        if gdefs != [counter]:
+            yield bad("C20-P1", "%s::get_progress" % nm, at(getter[0]), "get_progress returns %s, not %s" % (gdefs, counter))
+        else:
+            yield ok("C20-P1", "%s::get_progress" % nm, at(getter[0]), "returns " + counter)
+        for ind in ("FaultIndication", "ResumeIndication", "KeepAlivePDU"):
+            cnt = {}
+            for f, b, j, s in agg_sites(fns, ind):
+                eb = ExprBuilder(ctx.prog, f)
+                e = eb.rvalue(s["rv"])
+                v = dict(zip(e[4], e[5])).get("progress")
+                txt = expr_str(v) if v else "?"
+                base = "%s::%s:%s.progress" % (nm, f.name, ind)
+                cnt[base] = cnt.get(base, 0) + 1
+                key = base + ("#%d" % cnt[base] if cnt[base] > 1 else "")
+                if txt in (counter, "%s::get_progress(&self)" % nm):
+                    yield ok("C20-P1", key, at(f, s["span"]["line"]), "progress <- " + txt)
+                else:
+                    yield bad("C20-P1", key, at(f, s["span"]["line"]), "%s.progress <- %s, not the progress counter" % (ind, txt))
+
+
+@rule("C20", "C20-P2", 1, "the receiver's counter is written only by adding the insert operation's new-bytes result")
+def c20_p2(ctx):
+    fns = impl_and_closures(ctx, RECV)
+    n = 0
+    for f, b, j, s, ps in field_writes(fns, "self.received_file_size"):
+        if f.name == "new":
+            continue
+        n += 1
+        eb = ExprBuilder(ctx.prog, f)
+        txt = expr_str(eb.rvalue(s["rv"])) if j >= 0 else "call result"
+        key = "%s:received_file_size" % f.name
+        if re.match(r"^\(AddWithOverflow\(self\.received_file_size, Segments::merge\(&mut self\.saved_segments, .*\)\)\)\.0$", txt) or re.match(r"^Add\(self\.received_file_size, Segments::merge\(&mut self\.saved_segments, .*\)\)$", txt):
+            yield ok("C20-P2", key, at(f, s["span"]["line"]), "+= Segments::merge(..)")
+        else:
+            yield bad("C20-P2", key, at(f, s["span"]["line"]), "received_file_size written as %s" % txt[:200])
+    # struct literal initialises it to 0
+    for f, b, j, s in agg_sites(fns, "RecvTransaction"):
+        e = ExprBuilder(ctx.prog, f).rvalue(s["rv"])
+        v = dict(zip(e[4], e[5])).get("received_file_size")
+        if v is not None and expr_str(v) == "const(0)":
+            yield ok("C20-P2", "new:received_file_size=0", at(f, s["span"]["line"]), "initialised to 0")
+        else:
+            yield bad("C20-P2", "new:received_file_size", at(f, s["span"]["line"]), "initialised to %s" % (expr_str(v) if v else "?"))
+    if n == 0:
+        raise Anchor("C20-P2", "writers of RecvTransaction.received_file_size")
+
+
+@rule("C20", "C20-P3", 1, "the sender's counter is written only by an accepted high-water-mark idiom fed by the bytes actually read")
+def c20_p3(ctx):
+    fns = impl_and_closures(ctx, SEND)
+    n = 0
+    for f, b, j, s, ps in field_writes(fns, "self.sent_file_size"):
+        if f.name == "new":
+            continue
+        n += 1
+        eb = ExprBuilder(ctx.prog, f, user_stop=True)
+        e = eb.rvalue(s["rv"]) if j >= 0 else eb.call(b, s)
+        txt = expr_str(e)
+        key = "%s:sent_file_size" % f.name
+        # idiom 1: max(old, offset + len(data))
+        m = re.match(r"^Ord(?:>)?::max\(self\.sent_file_size, (?:\(AddWithOverflow\((\w+), \(Vec::len\(&(\w+)\) as u64\)\)\)\.0|Add\((\w+), \(Vec::len\(&(\w+)\) as u64\)\))\)$", txt)
+        good = False
+        why = ""
+        if m:
+            off = m.group(1) or m.group(3)
+            data = m.group(2) or m.group(4)
+            # `data` must be the buffer filled by the bounded read, `offset` the position it was read at
+            ebf = ExprBuilder(ctx.prog, f, user_stop=True)
+            ddefs = [expr_str(x) for x in ebf.var_defs(data)]
+            bufs = {data} | {d for d in ddefs if re.match(r"^\w+$", d)}
+            read_into = False
+            seek_at = False
+            for b2, t2 in f.all_calls():
+                c = ebf.call(b2, t2)
+                cn = callee_name(c) or ""
+                if cn.endswith("Read::read_to_end") or cn.endswith("Read>::read_to_end") or cn.endswith("::read_to_end"):
+                    if any(expr_str(a) in ("&mut " + x for x in bufs) for a in c[3][1:]):
+                        read_into = True
+                if cn.endswith("Seek>::seek") or cn.endswith("Seek::seek"):
+                    if expr_str(c[3][1]) == "io::SeekFrom::Start{%s}" % off:
+                        seek_at = True
+            if read_into and seek_at:
+                good = True
+                why = "max(old, %s + len(%s)); %s is the seek position, %s the bytes read" % (off, data, off, data)
+            else:
+                why = "max idiom, but %s/%s are not the seek position / bytes read (read_into=%s seek_at=%s)" % (off, data, read_into, seek_at)
+        if good:
+            yield ok("C20-P3", key, at(f, s["span"]["line"]), why)
+        else:
+            yield bad("C20-P3", key, at(f, s["span"]["line"]), "sent_file_size updated as %s - not an accepted high-water-mark idiom (max(old, offset + bytes read)) %s" % (txt[:200], why))
+    if n == 0:
+        raise Anchor("C20-P3", "writers of SendTransaction.sent_file_size")
